@@ -248,6 +248,9 @@ func (p *Path) lock(fr *frame, m value, write bool) value {
 			p.violationNoAbort("self-deadlock", fmt.Sprintf("%s acquired while already held (at %s)", p.lockNames[mp], fr.posOf(fr.cur)))
 			panic(pathAbort{"self-deadlock"})
 		}
+		// sync.RWMutex prohibits recursive read locking: a writer that calls
+		// Lock between the two RLocks blocks the second one forever
+		p.violationNoAbort("recursive-read-lock", fmt.Sprintf("%s read-locked again while this goroutine already holds a read lock (deadlocks as soon as a writer waits in between) at %s", p.lockNames[mp], fr.posOf(fr.cur)))
 	}
 	if p.thr != nil {
 		// scheduling point; then wait while another thread holds the mutex
@@ -263,6 +266,7 @@ func (p *Path) lock(fr *frame, m value, write bool) value {
 	if p.eng.lockset != nil {
 		p.eng.lockset.onAcquire(p, mp, write)
 	}
+	p.raceAcquire(mp, write)
 	if write {
 		p.held[mp] = 1
 		p.lockState[mp] = 1
@@ -279,6 +283,7 @@ func (p *Path) unlock(fr *frame, m value, write bool) value {
 	if (write && cur != 1) || (!write && cur >= 0) {
 		panic(runtimePanic("fatal error: sync: unlock of unlocked mutex " + p.lockNames[mp]))
 	}
+	p.raceRelease(mp, write)
 	if write {
 		delete(p.held, mp)
 		delete(p.lockState, mp)
